@@ -3,6 +3,7 @@ import NbioVerif.Lemmas.C09Bridge
 import NbioVerif.Lemmas.C09Rfc
 import NbioVerif.Lemmas.C09AutoLen
 import NbioVerif.Lemmas.C09Account
+import NbioVerif.Lemmas.C09ReadFrom
 /-! C09 HTTP response framing — property theorems over the model `Resp` (nbhttp/response.go). -/
 namespace Resp
 
@@ -635,6 +636,33 @@ theorem c09_content_length_accounting (g : Cfg) (hg : g.failAt = 0) (hdr : Heade
   · rw [← h1]
     exact (verdict_eq (runB g (body0 g hdr sc st) ops).1 { (runB g (body0 g hdr sc st) ops).1 with hasBody := true } rfl rfl).symm
   · rw [← a1]; exact h3
+
+/-- **C09, ReadFrom in the `http.ServeContent` shape** (what `io.Copy(w, r)`, `http.ServeContent` and
+`http.ServeFile` reach): after any header phase `pre` that leaves an explicit, valid Content-Length and no request
+for chunked coding or trailers, on a connection that accepts the writes, `ReadFrom` of a reader that yields `data`
+— a plain reader (io.Copy in 32 KiB conn writes), an `*os.File` or an `io.LimitedReader` (Sendfile when the conn
+offers it) — returns `len(data)`, and after flushResponse the wire is the head followed by EXACTLY `data`; the
+connection is closed iff the request asked for it.  (The state is the one the driver reaches: `run g {} pre`.) -/
+theorem c09_readfrom_serve_content (g : Cfg) (hg : g.failAt = 0) (pre : List Op)
+    (hpre : ∀ op ∈ pre, op.headerPhase = true) (k : RKind) (data : Bytes)
+    (hs : saneFraming g (run g {} pre).1.header = true)
+    (hte : (hget (run g {} pre).1.header kTE).contains (str "chunked") = false)
+    (htr : hget (run g {} pre).1.header kTrailer = [])
+    (hcl : hfirst (run g {} pre).1.header kCL ≠ []) :
+    (step g (run g {} pre).1 (.readFrom k data)).2 = some (.ok data.length) ∧
+    (finish g (step g (run g {} pre).1 (.readFrom k data)).1).1.wire.flatten =
+      g.head { writeHeader200 (run g {} pre).1 with hasBody := true } ++ data ∧
+    (finish g (step g (run g {} pre).1 (.readFrom k data)).1).2 = g.reqClose := by
+  obtain ⟨h1, _⟩ := run_pre g pre [] {} hpre rfl
+  unfold HeaderOnly at h1
+  obtain ⟨a, b, c⟩ := readFrom_spec g hg (run g {} pre).1.header (run g {} pre).1.statusCode (run g {} pre).1.status
+    k data hs hte htr hcl
+  rw [← h1] at a b c
+  simp only [step]
+  generalize readFrom g (run g {} pre).1 k data = p at *
+  obtain ⟨r', w⟩ := p
+  dsimp only at a b c ⊢
+  exact ⟨by rw [a], b, c⟩
 
 /-! ### non-vacuity -/
 
